@@ -1,11 +1,14 @@
 package main
 
 import (
+	"errors"
 	"fmt"
 	"io"
+	"os"
 	"sort"
 	"strings"
 	"sync"
+	"syscall"
 
 	"github.com/hugelgupf/p9/linux"
 	"github.com/hugelgupf/p9/p9"
@@ -22,6 +25,9 @@ type backend struct {
 	panicPm     int
 	closeFaults bool
 	panics      int // panics injected so far
+	errKinds    bool // draw error *values* of many kinds (linux / syscall errno, os.Err*, wrapped, opaque)
+	forceKind   p9.FileMode // if non-zero: mode of the next file created by a named walk
+	lastNew     int         // id of the handle created last
 	fullReads   bool // ReadAt always fills the buffer (C13 boundary runs)
 	manyDirents int  // Readdir returns about this many entries (C13 boundary runs)
 
@@ -80,6 +86,7 @@ func (b *backend) newFileLocked(mode p9.FileMode, path ...string) *sfile {
 	f := &sfile{b: b, id: b.nextID, path: append([]string{}, path...)}
 	b.nextID++
 	b.kind[f.id] = uint32(mode)
+	b.lastNew = f.id
 	return f
 }
 
@@ -121,6 +128,10 @@ func (b *backend) record(h int, meth string, ints []uint64, strs [][]byte, force
 		b.tape = append(b.tape, "panic")
 		b.panics++
 		doPanic = true
+	case roll < b.panicPm+b.errPm && b.errKinds:
+		kind, code, err := b.randErr()
+		b.tape = append(b.tape, fmt.Sprintf("err:%d:%s", code, kind))
+		o.err = err
 	case roll < b.panicPm+b.errPm:
 		errnos := []linux.Errno{linux.EIO, linux.ENOENT, linux.EACCES, linux.EEXIST, linux.ENOTDIR, linux.ENOSPC, linux.EROFS, linux.EAGAIN, linux.ENOTEMPTY, linux.ENODATA}
 		e := errnos[b.r.intn(len(errnos))]
@@ -135,6 +146,32 @@ func (b *backend) record(h int, meth string, ints []uint64, strs [][]byte, force
 		panic(fmt.Sprintf("injected panic in %s(h%d)", meth, h))
 	}
 	return o
+}
+
+// randErr draws an error value: (kind tag, errno code if any, the error).
+func (b *backend) randErr() (string, uint32, error) {
+	codes := []uint32{1, 2, 5, 13, 17, 20, 21, 22, 28, 30, 39, 61, 95, 11}
+	code := codes[b.r.intn(len(codes))]
+	switch b.r.intn(11) {
+	case 0, 1:
+		return "L", code, linux.Errno(code)
+	case 2, 3:
+		return "S", code, syscall.Errno(code)
+	case 4:
+		return "WL", code, fmt.Errorf("backend: %w", fmt.Errorf("deeper: %w", linux.Errno(code)))
+	case 5:
+		return "PE", code, &os.PathError{Op: "open", Path: "/x", Err: syscall.Errno(code)}
+	case 6:
+		return "N", 0, fmt.Errorf("wrapped: %w", os.ErrNotExist)
+	case 7:
+		return "X", 0, os.ErrExist
+	case 8:
+		return "P", 0, os.ErrPermission
+	case 9:
+		return "I", 0, os.ErrInvalid
+	default:
+		return "O", 0, errors.New("opaque backend failure")
+	}
 }
 
 func rowsTok(rows [][]string) string {
@@ -239,6 +276,9 @@ func (f *sfile) walkCommon(meth string, names []string, withAttr bool) ([]p9.QID
 	mode := p9.FileMode(b.kind[f.id])
 	if len(names) > 0 {
 		mode = b.randKind()
+		if b.forceKind != 0 {
+			mode = b.forceKind
+		}
 	}
 	nf := b.newFileLocked(mode, append(append([]string{}, f.path...), names...)...)
 	var (
